@@ -835,18 +835,33 @@ fn shake_1(expression: Expression) -> Expression {
                         );
                         regex.push(expression);
                     } else {
-                        let expression = Expression::Search(
-                            Search::RegexSet(
-                                RegexSetBuilder::new(patterns)
-                                    .case_insensitive(insensitive)
-                                    .build()
-                                    .expect("could not build regex set"),
-                                insensitive,
-                            ),
-                            field,
-                            cast,
-                        );
-                        regex_set.push(expression);
+                        // NOTE: Regexes that are fine one by one can exceed the size limit of a
+                        // set, in which case they are left as separate searches.
+                        match RegexSetBuilder::new(&patterns)
+                            .case_insensitive(insensitive)
+                            .build()
+                        {
+                            Ok(set) => regex_set.push(Expression::Search(
+                                Search::RegexSet(set, insensitive),
+                                field,
+                                cast,
+                            )),
+                            Err(_) => {
+                                for pattern in patterns {
+                                    regex.push(Expression::Search(
+                                        Search::Regex(
+                                            RegexBuilder::new(&pattern)
+                                                .case_insensitive(insensitive)
+                                                .build()
+                                                .expect("could not build regex"),
+                                            insensitive,
+                                        ),
+                                        field.clone(),
+                                        cast,
+                                    ));
+                                }
+                            }
+                        }
                     }
                 }
 
